@@ -1149,7 +1149,7 @@ spfmx(const char *domain, const char *token)
 	 * or "AAAA" resource records.  If this limit is exceeded, the "mx"
 	 * mechanism MUST produce a "permerror" result.
 	 */
-	i = 1;
+	i = 0;
 	struct ips *cur = mx;
 	while (cur != NULL) {
 		cur = cur->next;
@@ -1649,6 +1649,22 @@ find_modifier(const char *s, const char *mod)
 }
 
 /**
+ * @brief account for a term that causes DNS queries
+ * @param queries number of DNS querying terms seen so far
+ * @return if the term may be evaluated
+ * @retval 0 the limit is exceeded, the term must not be evaluated
+ *
+ * RfC 7208, section 4.6.4: the "include", "a", "mx", "ptr", and "exists"
+ * mechanisms and the "redirect" modifier are limited to 10 per evaluation.
+ */
+static int
+spf_dnsterm_allowed(unsigned int *queries)
+{
+	*queries += 1;
+	return (*queries <= 10);
+}
+
+/**
  * look up SPF records for domain
  *
  * @param domain no idea what this might be for
@@ -1798,25 +1814,24 @@ spflookup(const char *domain, unsigned int *queries)
 		if ( (mechlen = match_mechanism(token, "mx", ":/")) != 0) {
 			token += mechlen;
 
-			result = spfmx(domain, token);
+			result = spf_dnsterm_allowed(queries) ? spfmx(domain, token) : SPF_FAIL;
 			mechanism = "MX";
-			*queries += 1;
 		} else if ( (mechlen = match_mechanism(token, "ptr", ":/")) != 0) {
 			token += mechlen;
 
-			result = spfptr(domain, token);
+			result = spf_dnsterm_allowed(queries) ? spfptr(domain, token) : SPF_FAIL;
 			mechanism = "PTR";
-			*queries += 1;
 		} else if ( (mechlen = match_mechanism(token, "exists", ":")) != 0) {
 			token += mechlen;
 
-			if (*token == ':') {
+			if (*token != ':') {
+				result = SPF_PERMERROR;
+			} else if (!spf_dnsterm_allowed(queries)) {
+				result = SPF_FAIL;
+			} else {
 				result = spfexists(domain, ++token);
 				mechanism = "exists";
-			} else {
-				result = SPF_PERMERROR;
 			}
-			*queries += 1;
 		} else if ( (mechlen = match_mechanism(token, "all", "")) != 0) {
 			token += mechlen;
 			result = SPF_PASS;
@@ -1824,9 +1839,8 @@ spflookup(const char *domain, unsigned int *queries)
 		} else if ( (mechlen = match_mechanism(token, "a", ":/")) != 0) {
 			token += mechlen;
 
-			result = spfa(domain, token);
+			result = spf_dnsterm_allowed(queries) ? spfa(domain, token) : SPF_FAIL;
 			mechanism = "A";
-			*queries += 1;
 		} else if ( (mechlen = match_mechanism(token, "ip4", ":/")) != 0) {
 			token += mechlen;
 
@@ -1858,8 +1872,9 @@ spflookup(const char *domain, unsigned int *queries)
 				} else {
 					if ((ip4l >= 0) || (ip6l >= 0)) {
 						result = SPF_PERMERROR;
+					} else if (!spf_dnsterm_allowed(queries)) {
+						result = SPF_FAIL;
 					} else {
-						*queries += 1;
 						result = spflookup(n, queries);
 					}
 					free(n);
@@ -1994,8 +2009,9 @@ spflookup(const char *domain, unsigned int *queries)
 		if (result == 0) {
 			if ((i4 != -1) || (i6 != -1)) {
 				result = SPF_PERMERROR;
+			} else if (!spf_dnsterm_allowed(queries)) {
+				result = SPF_FAIL;
 			} else {
-				*queries += 1;
 				/* RfC 7208, section 6.2
 				 * In contrast, when executing a "redirect" modifier, an "exp"
 				 * modifier from the original domain MUST NOT be used.
